@@ -617,6 +617,52 @@ def classes_of_specs_are_literals_in_argument_position(col):
                               '%s with the argument %r: %r, expected the value %r' % (name, lit, got, want), None)
 
 
+def key_specs_and_reductions_keep_the_mode_in_force(col):
+    """(1) the key of First is evaluated per item through an entry point of its own - still in the mode in force: W(First(p)) picks the
+    first item x for which W(p) evaluated on x is truthy (calibrated per item), and fails as W(p) fails.  (2) Group mode ends with the
+    Group step: a reduction chained after it, or under another mode wrapper inside it, folds its own target"""
+    from glom.streaming import First
+    items = [{'a': 0}, {'a': 1, 'k': 0}, {'b': 2, 'a': 3}]
+    probes = [('path-string', lambda: 'a'), ('tuple', lambda: ('a',)), ('T', lambda: T['a']), ('list', lambda: ['a']), ('dict', lambda: {'k': 'a'}),
+              ('number', lambda: 0), ('callable', lambda: (lambda x: x.get('k') == 0))]
+    for wname, W in (('auto', Auto), ('fill', Fill), ('match', Match)):
+        for pname, mkp in probes:
+            want = None
+            for x in items:
+                o = call(G, x, W(mkp()))
+                if not o.ok:
+                    want = ('raise', type(o.exc).__name__)
+                    break
+                if o.value:
+                    want = ('value', x)
+                    break
+            if want is None:
+                want = ('value', 'none')
+            for cname, mk in (('First(p)', lambda p: First(p, default='none')), ('Pipe(T, First(p))', lambda p: Pipe(T, First(p, default='none')))):
+                got = call(G, list(items), W(mk(mkp())))
+                col.case(('first-key-mode', wname, pname, cname), True)
+                col.count('trees_evaluated')
+                col.count('mode_transparency_checks')
+                mine = ('value', got.value) if got.ok else ('raise', type(got.exc).__name__)
+                if mine != want:
+                    col.violation('C08/mode-not-passed-on:%s:First-key:%s' % (wname, pname), '%s(%s) with p = %r over %r: %r ; per item, %s(p) says %r'
+                                  % (W.__name__, cname, mkp(), items, got, W.__name__, want), None)
+    from glom import Sum, Flatten, Merge
+    cases = [('Flatten after Group([T])', [[1, 2], [3]], lambda: (Group([T]), Flatten()), [1, 2, 3]),
+             ('Sum in a dict after a Group', [[1, 2], [3, 4]], lambda: (Group([T]), {'n': Sum((T, [len]))}), {'n': 4}),
+             ('Auto(Sum()) inside a Group', [[1, 2], [3, 4]], lambda: Group([Auto(Sum())]), [3, 7]),
+             ('Fill(Sum()) inside a Group', [[1, 2], [3, 4]], lambda: Group([Fill(Sum())]), [3, 7]),
+             ('Auto chain with Flatten as Group key', [[[1], [2]], [[3]]], lambda: Group({Auto((Flatten(), len)): [T]}), {2: [[[1], [2]]], 1: [[[3]]]}),
+             ('Merge after a Group in a Pipe', [{'a': 1}, {'b': 2}], lambda: Pipe(Group([T]), Merge()), {'a': 1, 'b': 2})]
+    for desc, target, mk, want in cases:
+        got = call(G, target, mk())
+        col.case(('group-mode-ends', desc), True)
+        col.count('trees_evaluated')
+        col.count('mode_transparency_checks')
+        if not got.ok or got.value != want:
+            col.violation('C08/mode-leak:group-mode-reaches-a-reduction-outside-it', '%s: %r, expected %r' % (desc, got, want), None)
+
+
 def run(ctx):
     col, rng = ctx.col, ctx.rng
     try:
@@ -642,6 +688,7 @@ def run(ctx):
                 documented(col, watch)
                 constructs_that_pass_the_mode_on(col)
                 classes_of_specs_are_literals_in_argument_position(col)
+                key_specs_and_reductions_keep_the_mode_in_force(col)
             for i in range(ctx.n(3000, 30000)):
                 mode_case(col, rng, watch, tracer)
         tracer.uninstall()
